@@ -1042,6 +1042,8 @@ def _stable_expr0(e, stable, mutated, attr_stores, self_unstable):
         return isinstance(e.slice, ast.Constant) and isinstance(base, ast.Name) and base.id in stable and base.id not in mutated
     if isinstance(e, (ast.BoolOp,)):
         return all(_stable_expr0(v, stable, mutated, attr_stores, self_unstable) for v in e.values)
+    if isinstance(e, ast.Tuple) and isinstance(getattr(e, "ctx", None), ast.Load):
+        return all(not isinstance(v, ast.Starred) and _stable_expr0(v, stable, mutated, attr_stores, self_unstable) for v in e.elts)
     if isinstance(e, ast.UnaryOp):
         return _stable_expr0(e.operand, stable, mutated, attr_stores, self_unstable)
     if isinstance(e, ast.Compare):
@@ -1298,6 +1300,160 @@ def _loops_to_comprehensions(fn):
             blk[i] = ast.copy_location(ast.Pass(), lp)
             n_done += 1
     return n_done
+
+
+# ------------------------------------------------------------------ N10 jump threading: decide (bind a verdict) then act (test it)
+
+def _static_truth(test, name, value):
+    """truth of `test` (a predicate over the single local `name`) when name is bound to the literal expression `value`; None = unknown"""
+    def kind(v):
+        if isinstance(v, ast.Constant):
+            return ("const", v.value)
+        if isinstance(v, (ast.Tuple, ast.List)) and not any(isinstance(x, ast.Starred) for x in v.elts):
+            return ("seq", len(v.elts))
+        if isinstance(v, ast.Dict) and all(k is not None for k in v.keys):
+            return ("seq", len(v.keys))
+        return None
+    k = kind(value)
+    if k is None:
+        return None
+    is_name = lambda e: isinstance(e, ast.Name) and e.id == name
+    if is_name(test):
+        return bool(k[1])
+    if isinstance(test, ast.UnaryOp) and isinstance(test.op, ast.Not):
+        r = _static_truth(test.operand, name, value)
+        return None if r is None else not r
+    if isinstance(test, ast.BoolOp):
+        rs = [_static_truth(v, name, value) for v in test.values]
+        if isinstance(test.op, ast.And):
+            return False if False in rs else (True if all(r is True for r in rs) else None)
+        return True if True in rs else (False if all(r is False for r in rs) else None)
+    if isinstance(test, ast.Compare) and len(test.ops) == 1 and is_name(test.left):
+        op, c = test.ops[0], test.comparators[0]
+        if isinstance(c, ast.Constant):
+            if isinstance(op, (ast.Is, ast.IsNot)) and c.value is None:
+                r = k == ("const", None)
+                return r if isinstance(op, ast.Is) else not r
+            if isinstance(op, (ast.Eq, ast.NotEq)) and k[0] == "const" and type(k[1]) is type(c.value):
+                r = k[1] == c.value
+                return r if isinstance(op, ast.Eq) else not r
+        if isinstance(c, (ast.Tuple, ast.List, ast.Set)) and all(isinstance(x, ast.Constant) for x in c.elts) and isinstance(op, (ast.In, ast.NotIn)) and k[0] == "const":
+            r = any(type(x.value) is type(k[1]) and x.value == k[1] for x in c.elts)
+            return r if isinstance(op, ast.In) else not r
+    return None
+
+
+def _falling_arms(st):
+    """the statement lists an if-chain can fall out of (arms that always leave are skipped); None when it has an implicit empty arm"""
+    arms, implicit = [], False
+
+    def rec(node):
+        nonlocal implicit
+        for blk in (node.body, node.orelse):
+            if not blk:
+                implicit = True
+                continue
+            if len(blk) == 1 and isinstance(blk[0], ast.If) and blk is node.orelse:
+                rec(blk[0])
+                continue
+            if _always_exits(blk):
+                continue
+            arms.append(blk)
+    rec(st)
+    return arms, implicit
+
+
+def _thread_jumps(fn):
+    """`if c1: t = V1 elif c2: t = V2 else: t = V3` directly followed by `if <predicate over t>: A else: B` where the predicate is decided
+    by each literal Vi: A / B is moved to the end of each arm (the way the code reads when the decision and the action are written
+    together).  Each arm's binding of t must be its last top-level store to t; the predicate must mention nothing but t."""
+    n_done = 0
+    for _ in range(8):
+        changed = False
+        for blk in _blocks(fn):
+            for i in range(len(blk) - 1):
+                a, b = blk[i], blk[i + 1]
+                if not (isinstance(a, ast.If) and isinstance(b, ast.If)):
+                    continue
+                names = {x.id for x in ast.walk(b.test) if isinstance(x, ast.Name)}
+                if len(names) != 1 or any(isinstance(x, (ast.Call, ast.Attribute, ast.Subscript, ast.Await, ast.NamedExpr)) for x in ast.walk(b.test)):
+                    continue
+                t = next(iter(names))
+                arms, implicit = _falling_arms(a)
+                if any(isinstance(x, ast.NamedExpr) for tst in _chain_tests(a) for x in ast.walk(tst)):
+                    continue
+                prev = blk[i - 1] if i > 0 else None
+                prev_value = prev.value if (isinstance(prev, ast.Assign) and len(prev.targets) == 1 and isinstance(prev.targets[0], ast.Name) and prev.targets[0].id == t) else None
+                values = []
+                for arm in arms:
+                    last_store = None
+                    for k, st in enumerate(arm):
+                        if any(isinstance(x, ast.Name) and x.id == t and isinstance(x.ctx, (ast.Store, ast.Del)) for x in ast.walk(st)):
+                            last_store = k
+                    if last_store is None:
+                        values.append(prev_value)          # the arm leaves the earlier binding alone
+                    else:
+                        st = arm[last_store]
+                        values.append(st.value if (isinstance(st, ast.Assign) and len(st.targets) == 1 and isinstance(st.targets[0], ast.Name)) else None)
+                if implicit:
+                    values.append(prev_value)              # the arm that is not written
+                if not values or any(v is None for v in values):
+                    continue
+                verdicts = [_static_truth(b.test, t, v) for v in values]
+                if any(v is None for v in verdicts):
+                    continue
+                size = sum(1 for s_ in b.body + b.orelse for _x in ast.walk(s_))
+                if size * len(values) > 600:
+                    continue
+                for arm, v in zip(arms, verdicts):
+                    arm.extend(copy.deepcopy(s_) for s_ in (b.body if v else b.orelse))
+                if implicit:
+                    taken = b.body if verdicts[-1] else b.orelse
+                    if taken:
+                        last = a
+                        while len(last.orelse) == 1 and isinstance(last.orelse[0], ast.If):
+                            last = last.orelse[0]
+                        last.orelse = [copy.deepcopy(s_) for s_ in taken]
+                blk[i + 1] = ast.copy_location(ast.Pass(), b)
+                changed = True
+                n_done += 1
+                break
+            if changed:
+                break
+        if not changed:
+            break
+    return n_done
+
+
+def _chain_tests(st):
+    out = [st.test]
+    while len(st.orelse) == 1 and isinstance(st.orelse[0], ast.If):
+        st = st.orelse[0]
+        out.append(st.test)
+    return out
+
+
+def _splice_starred_literals(fn):
+    """f(*(a, b)) -> f(a, b)"""
+    n = 0
+    for c in ast.walk(fn):
+        if isinstance(c, ast.Call) and any(isinstance(a, ast.Starred) and isinstance(a.value, (ast.Tuple, ast.List)) and not any(isinstance(x, ast.Starred) for x in a.value.elts) for a in c.args):
+            new = []
+            for a in c.args:
+                if isinstance(a, ast.Starred) and isinstance(a.value, (ast.Tuple, ast.List)) and not any(isinstance(x, ast.Starred) for x in a.value.elts):
+                    new += a.value.elts
+                    n += 1
+                else:
+                    new.append(a)
+            c.args = new
+    # (a, b)[0] -> a   (elements that are plain names / constants: nothing is lost by not evaluating the others)
+    for sub in [x for x in ast.walk(fn) if isinstance(x, ast.Subscript) and isinstance(x.ctx, ast.Load) and isinstance(x.value, (ast.Tuple, ast.List))
+                and isinstance(x.slice, ast.Constant) and isinstance(x.slice.value, int) and not isinstance(x.slice.value, bool)]:
+        elts = sub.value.elts
+        if all(isinstance(e, (ast.Name, ast.Constant)) for e in elts) and -len(elts) <= sub.slice.value < len(elts):
+            _replace_node(fn, sub, elts[sub.slice.value])
+            n += 1
+    return n
 
 
 # ------------------------------------------------------------------ N7 nested ifs without else -> one conjunction
@@ -1625,14 +1781,29 @@ def normalize(modname, tree):
             for m in ast.walk(c):
                 if isinstance(m, FUNC):
                     unstable[m] = attrs
+    stats.update({"comprehensions": 0, "named_values": 0, "merged_ifs": 0, "threaded": 0})
+    for round_ in range(3):
+        progress = 0
+        for n in ast.walk(tree):
+            if isinstance(n, FUNC):
+                # N3 is not applied (see flow.return_alts: rules enumerate the alternatives of a conditional return themselves)
+                stats["comprehensions"] += _loops_to_comprehensions(n)
+                stats["named_conditions"] += _named_conditions(n)
+                k = _thread_jumps(n)
+                stats["threaded"] += k
+                stats["named_values"] += _named_values(n, unstable.get(n))
+                stats["named_conditions"] += _named_conditions(n)
+                stats["comprehensions"] += _loops_to_comprehensions(n)          # loops whose body became one statement by the passes above
+                progress += k + _splice_starred_literals(n)
+        if not progress or inv is None:
+            break
+        # verdicts threaded / starred literals spliced: calls of new helpers that could not be bound before may be inlinable now
+        more = _Inliner(modname, tree, inv).run()
+        stats["inlined"] += more
+        if not more:
+            break
     for n in ast.walk(tree):
         if isinstance(n, FUNC):
-            # N3 is not applied (see flow.return_alts: rules enumerate the alternatives of a conditional return themselves)
-            stats["comprehensions"] = stats.get("comprehensions", 0) + _loops_to_comprehensions(n)
-            stats["named_conditions"] += _named_conditions(n)
-            stats["named_values"] = stats.get("named_values", 0) + _named_values(n, unstable.get(n))
-            stats["named_conditions"] += _named_conditions(n)
-            stats["comprehensions"] += _loops_to_comprehensions(n)          # loops whose body became one statement by the passes above
-            stats["merged_ifs"] = stats.get("merged_ifs", 0) + _merge_nested_ifs(n)
+            stats["merged_ifs"] += _merge_nested_ifs(n)
     ast.fix_missing_locations(tree)
     return stats
